@@ -3,7 +3,7 @@
 Require Import Cirbo.Model.Base Cirbo.Model.Gate Cirbo.Model.Den Cirbo.Model.Circuit Cirbo.Model.Traverse
         Cirbo.Model.Eval Cirbo.Model.Sem Cirbo.Model.WF Cirbo.Model.Passes.
 Require Import Cirbo.Proofs.PassRebuild Cirbo.Proofs.PassRR Cirbo.Proofs.PassMU Cirbo.Proofs.PassMD
-        Cirbo.Proofs.PassME Cirbo.Proofs.PassPipeline.
+        Cirbo.Proofs.PassME Cirbo.Proofs.PassPipeline Cirbo.Proofs.PassTotal Cirbo.Proofs.PassTruth.
 
 Theorem leaf_pres t c c' :
   WF c -> arity_ok c -> transform_leaf t c = Ok c' -> Pres (tv_of t) (keep_of t) c c'.
@@ -180,4 +180,47 @@ Lemma c03_ex_runs :
               outputs c' = ["g2"; "g2"; "a"]).
 Proof.
   repeat split; eexists; (split; [vm_compute; reflexivity|]); repeat split; vm_compute; reflexivity.
+Qed.
+
+(* ---------------- totality of pipelines ---------------- *)
+Lemma leaf_total t c : is_leaf t = true -> WF c -> arity_ok c -> exists c', transform_leaf t c = Ok c'.
+Proof.
+  intros Hl W A. destruct t as [air| | | |ts]; simpl; [apply rr_total|apply mu_total|apply md_total|apply me_total|discriminate];
+    assumption.
+Qed.
+
+Lemma apply_linear_total ts : forallb is_leaf ts = true -> forall c, WF c -> arity_ok c ->
+  exists c', apply_linear ts c = Ok c'.
+Proof.
+  induction ts as [|t ts IH]; intros Hl c W A; unfold apply_linear; simpl; [eauto|].
+  simpl in Hl. apply andb_true_iff in Hl. destruct Hl as [Ht Hts].
+  destruct (leaf_total t c Ht W A) as [c1 H1]. rewrite H1. simpl.
+  pose proof (leaf_pres t c c1 W A H1) as P1.
+  apply IH; [exact Hts|exact (pr_wf _ _ _ _ P1)|exact (pr_arity _ _ _ _ P1)].
+Qed.
+
+Theorem pipeline_total c ts : WF c -> arity_ok c -> exists c', apply_transformers c ts = Ok c'.
+Proof.
+  intros W A. unfold apply_transformers. apply apply_linear_total; [|exact W|exact A].
+  unfold linearize_reduce, linearize. apply reduce_from_forallb.
+  rewrite forallb_flat_map. apply forallb_forall. intros t _. apply as_distinct_is_leaf.
+Qed.
+
+Theorem cleanup_total c b : WF c -> arity_ok c -> exists c', cleanup c b = Ok c'.
+Proof. intros W A. unfold cleanup. apply pipeline_total; assumption. Qed.
+
+(* ---------------- identical truth tables ---------------- *)
+Theorem pipeline_truth_table c ts c' t t' :
+  WF c -> arity_ok c -> forallb (all_leaves keep_of) ts = true -> apply_transformers c ts = Ok c' ->
+  get_truth_table c = Ok t -> get_truth_table c' = Ok t' -> t = t'.
+Proof.
+  intros W A Hk H. pose proof (pipeline_pres c ts c' W A H) as P. rewrite Hk in P.
+  eapply truth_table_equal; eassumption.
+Qed.
+
+Theorem cleanup_truth_table c b c' t t' :
+  WF c -> arity_ok c -> cleanup c b = Ok c' ->
+  get_truth_table c = Ok t -> get_truth_table c' = Ok t' -> t = t'.
+Proof.
+  intros W A H. eapply truth_table_equal; [exact W|]. exact (cleanup_pipeline_pres c b c' W A H).
 Qed.
